@@ -167,6 +167,51 @@ def run(tier, seed):
             distinct.add((c["key"], dr, fr))
             hreq.append(f"codec {libname(c)} {dr} {fr.hex()}")
             hmeta.append((c, dr, fr))
+    # ---- second stream: messages that mention built-in types outside the Lean semantics (MonsterMoveSplines, mask types, NamedGuid,
+    # VariableItemRandomProperty).  Their canonical frames come from the python reference encoder tools/pyenc.py, which is itself
+    # cross-checked against the Lean decoder on messages inside the semantics in this run.
+    import pyenc
+    prng = SplitMix64(seed ^ 0xC01)
+    n_prim_frames = 0
+    prim_unsupported = collections.Counter()
+    for c in ok:
+        if "prim" not in c["tokens"]:
+            continue
+        for s_ in range(14 if tier == "quick" else 80):
+            try:
+                body = pyenc.encode(c["tokens"], prng, (0, 1, 3, 5)[s_ % 4], s_ if s_ < 10 else None)
+            except pyenc.Unsupported as e:
+                prim_unsupported[str(e)] += 1
+                break
+            except (OverflowError, ValueError):
+                continue
+            for dr in directions(c):
+                fr = frame(libname(c), dr, c["opcode"], body)
+                if len(fr) > 60000 or (c["key"], dr, fr) in distinct:
+                    continue
+                distinct.add((c["key"], dr, fr))
+                hreq.append(f"codec {libname(c)} {dr} {fr.hex()}")
+                hmeta.append((c, dr, fr))
+                n_prim_frames += 1
+    xq, xm = [], []
+    plain = [c for c in ok if "prim" not in c["tokens"]]
+    for _ in range(300 if tier == "quick" else 3000):
+        c = plain[prng.below(len(plain))]
+        try:
+            b_ = pyenc.encode(c["tokens"], prng, 3, prng.below(12))
+        except (pyenc.Unsupported, OverflowError, ValueError):
+            continue
+        xq.append(f"dec {c['key']} {b_.hex() or '-'}")
+        xm.append((c, b_))
+    d2 = Driver()
+    xo = d2.ask_many(xq)
+    d2.close()
+    n_x = 0
+    for (c, b_), o in zip(xm, xo):
+        if o.startswith("ok") and o.split()[1] == (b_.hex() or "-"):
+            n_x += 1
+        else:
+            rep.violation(f"C01/reference-encoder/{c['key']}", f"the python reference encoder and the Lean decoder disagree on {c['key']}: '{o[:100]}'", {"container": c["key"], "bytes": b_.hex()[:2000], "model": o[:300]}, no_input=True)
     ho = run_parallel(har, hreq, jobs=12)
     n_ok = 0
     known_hits = collections.Counter()
@@ -189,6 +234,7 @@ def run(tier, seed):
         "containers_total": len(conts), "containers_exercised": covered,
         "containers_outside_model": {"compressed (translator)": len(uns), **{f"built-in {k}": v for k, v in uns_kinds.items()}},
         "evaluations": len(hreq), "distinct_nontrivial": len(distinct), "frames_ok": n_ok,
+        "builtin_type_stream": {"frames": n_prim_frames, "reference_encoder_cross_checked_against_lean": n_x, "builtins_without_payload_generator": dict(prim_unsupported)},
         "rule": f"per version-expanded message: directed samples in which every steering variable cycles through every value it is compared with (and one it is not) / every single flag mask, none, all — so every if / else-if / else arm is taken — plus {ns} random samples (arrays 0..4 or 0..9 elements); both directions for msg; distinct = distinct (container, direction, frame)",
         "samples": [{"request": hreq[i][:200], "implementation": ho[i][:200]} for i in (0, len(hreq) // 2, len(hreq) - 1)],
     }
